@@ -43,11 +43,12 @@ private def sortBy {α} (lt : α → α → Bool) (xs : List α) : List α := xs
 
 def dump (s : State) : String :=
   let gs := (sortBy grantLt s.grants).map fun g => s!"{g.1}:{g.2.1}:{g.2.2.toString}"
-  let os := (sortBy (fun (a b : Order) => a.id < b.id) s.orders).map fun o => s!"{o.id}:{o.market}:{o.owner.render}"
+  let os := (sortBy (fun (a b : Order) => a.id < b.id) s.orders).map fun o => s!"{o.id}:{o.market}:{o.owner.render}:{if o.ext = "" then "-" else o.ext}"
   let ps := (sortBy (fun (a b : Payment) => a.source < b.source || (a.source == b.source && a.extId < b.extId)) s.payments).map
     fun p => s!"{p.source}:{p.extId}:{if p.target = "" then "-" else p.target}"
+  let cs := (sortBy (fun (a b : Nat × String) => a.1 < b.1 || (a.1 == b.1 && a.2 < b.2)) s.commits).map fun c => s!"{c.1}:{c.2}"
   let j (xs : List String) := if xs.isEmpty then "-" else ",".intercalate xs
-  s!"grants={j gs} orders={j os} payments={j ps}"
+  s!"grants={j gs} orders={j os} payments={j ps} commits={j cs}"
 
 /-- parse one op line -/
 def parseOp (ws : List String) : Option Op :=
@@ -62,6 +63,14 @@ def parseOp (ws : List String) : Option Op :=
   | ["call", e, m, caller] => do pure (.call (← Endpoint.ofString? e) (← parseNat? m) (parseText caller))
   | ["hasperm", m, a, p] => do pure (.hasperm (← parseNat? m) (parseText a) (← Perm.ofString? p))
   | ["order", id, m, owner] => do pure (.order (← parseNat? id) (← parseNat? m) (parseText owner))
+  -- the fifth word (ask | bid) tells the harness which kind of order to create; the guards do not look at it
+  | ["order", id, m, owner, _kind] => do pure (.order (← parseNat? id) (← parseNat? m) (parseText owner))
+  | ["setid", m, id, caller, ext] => do
+    pure (.setid (← parseNat? m) (← parseNat? id) (parseText caller) (if ext = "-" then "" else ext))
+  | ["settle", m, ask, bid, caller] => do
+    pure (.settle (← parseNat? m) (← parseNat? ask) (← parseNat? bid) (parseText caller))
+  | ["commit", m, acct] => do pure (.commit (← parseNat? m) acct)
+  | ["release", m, caller, accts] => do pure (.release (← parseNat? m) (parseText caller) (splitList accts))
   | ["cancel", id, signer] => do pure (.cancel (← parseNat? id) (parseText signer))
   | ["pay", source, ext, target] => some (.pay source ext (if target = "-" then "" else target))
   | ["accept", source, ext, signer] => some (.accept source ext signer)
@@ -121,6 +130,37 @@ def verdict (s : State) (op : Op) (r : String) (tag : String := "") : String :=
     match findPayment s signer ext with
     | none => if r = "ok" then "fail:payment_retargeted_by_non_source" else "ok"
     | some _ => "ok"
+  | .setid m id caller _ =>
+    -- "in the market of the item acted on": a successful request must come from the authority or a
+    -- holder of `set_ids` in the market the ORDER lives in, whatever market the request names
+    let allowed := endpointAllowed s .MarketSetOrderExternalID m caller
+    if r = "ok" then
+      match s.orders.find? (·.id = id) with
+      | none => "fail:setid_unknown_order"
+      | some o =>
+        if !endpointAllowed s .MarketSetOrderExternalID o.market caller then
+          "fail:endpoint_without_perm_in_item_market:MarketSetOrderExternalID"
+        else if !allowed then "fail:endpoint_without_perm:MarketSetOrderExternalID" else "ok"
+    else if r = "err:perm" ∧ allowed then "fail:endpoint_rejects_permitted:MarketSetOrderExternalID" else "ok"
+  | .settle m ask bid caller =>
+    let allowed := endpointAllowed s .MarketSettle m caller
+    if r = "pass" ∧ !allowed then "fail:endpoint_without_perm:MarketSettle"
+    else if r = "err:perm" ∧ allowed then "fail:endpoint_rejects_permitted:MarketSettle"
+    else if r = "pass" ∧ tag = "#ok" then
+      -- the settlement was executed: every order it consumed must live in a market whose `settle`
+      -- guard the caller passes
+      if [ask, bid].all fun id =>
+          match s.orders.find? (·.id = id) with
+          | none => false
+          | some o => endpointAllowed s .MarketSettle o.market caller
+      then "ok" else "fail:endpoint_without_perm_in_item_market:MarketSettle"
+    else "ok"
+  | .commit .. => "-"
+  | .release m caller _ =>
+    -- owning the committed funds is not a permission
+    let allowed := endpointAllowed s .MarketReleaseCommitments m caller
+    if r = "ok" ∧ !allowed then "fail:endpoint_without_perm:MarketReleaseCommitments"
+    else if r = "err:perm" ∧ allowed then "fail:endpoint_rejects_permitted:MarketReleaseCommitments" else "ok"
   | .gov mod msg caller _ =>
     let name := mod ++ "." ++ msg
     let allowed := govAllowed s mod msg caller
